@@ -9,6 +9,7 @@ CONSTANTS
   Bug = "%(bug)s"
   MaxLen = %(maxlen)d
   DumpCases = %(dump)s
+  Uni = "%(uni)s"
 INVARIANTS %(invs)s
 CONSTRAINT Dump
 CHECK_DEADLOCK FALSE
@@ -26,16 +27,30 @@ def check(c):
     #      insertion sequence with the verdict set computed by TLC
     cases = c.path("c01cases.ndjson")
     uni = c.path("c01universe.json")
-    c.model_check("RadixMC", RADIX_CFG % dict(bug="none", maxlen=maxlen, dump="TRUE", invs=INVS),
-                  tag="RadixMC", env={"OUT_FILE": cases, "UNIVERSE_FILE": uni}, timeout=3000)
+    cases2 = c.path("c01cases_small.ndjson")
+    uni2 = c.path("c01universe_small.json")
+    thunks = [
+        lambda: c.model_check("RadixMC", RADIX_CFG % dict(bug="none", maxlen=maxlen, dump="TRUE", invs=INVS, uni="full"),
+                              tag="RadixMC", env={"OUT_FILE": cases, "UNIVERSE_FILE": uni}, timeout=3000, workers=8),
+        # the 32-pattern sub-universe, one insertion deeper (some defects need three or four interacting patterns)
+        lambda: c.model_check("RadixMC", RADIX_CFG % dict(bug="none", maxlen=maxlen + 1, dump="TRUE", invs="Refines WellFormed ElemsSubset", uni="small"),
+                              tag="RadixMC_small", env={"OUT_FILE": cases2, "UNIVERSE_FILE": uni2}, timeout=3000, workers=8),
+    ]
     for bug in TWINS:
-        c.negative_twin("RadixMC", RADIX_CFG % dict(bug=bug, maxlen=2, dump="FALSE", invs=INVS),
-                        tag="RadixMC_neg_" + bug, timeout=600)
+        thunks.append(lambda bug=bug: c.negative_twin("RadixMC", RADIX_CFG % dict(bug=bug, maxlen=2, dump="FALSE", invs=INVS, uni="full"),
+                                                      tag="RadixMC_neg_" + bug, timeout=600, workers=2))
+    c.parallel(thunks, max_workers=3)
 
     # ---- G: replay all of them through the real middleware
     summ = c.path("c01gen.json")
     c.run_driver(["c01gen", "-universe", uni, "-cases", cases, "-out", summ], timeout=3000)
     s = json.load(open(summ))
+    summ2 = c.path("c01gen_small.json")
+    c.run_driver(["c01gen", "-universe", uni2, "-cases", cases2, "-out", summ2], timeout=3000)
+    s2 = json.load(open(summ2))
+    s["mismatches"] = (s["mismatches"] or []) + (s2["mismatches"] or [])
+    for f in ("evaluations", "nontrivial", "rejected", "elems_drift", "cases"):
+        s[f] += s2[f]
     if s["evaluations"] == 0 or s["rejected"] > 0:
         # by-construction valid patterns were rejected: the replay is (partly) vacuous
         if s["evaluations"] == 0:
@@ -89,7 +104,7 @@ def check(c):
             c.drift.append("random driver: %d by-construction-valid lists rejected" % r["rejected"])
         done += r["probes"]
         k += 1
-    c.cov["rule"] = ("G: every insertion sequence of <= %d patterns over the 72-pattern universe of RadixMC.tla "
+    c.cov["rule"] = ("G: every insertion sequence of <= %d patterns over the 72-pattern universe of RadixMC.tla and every sequence one longer over its 32-pattern sub-universe "
                      "(hosts sharing suffixes at non-label boundaries) x 84 probe origins, replayed through "
                      "NewMiddleware + GET + preflight with seeded byte/scheme/port concretisation; non-trivial = "
                      ">= 2 distinct patterns. T: seeded realistic lists (1-30 patterns, families sharing suffixes, "
